@@ -6,7 +6,9 @@ package main
 import (
 	"encoding/hex"
 	"fmt"
+	"os"
 	"runtime"
+	"runtime/debug"
 	"strings"
 
 	"github.com/pion/rtcp"
@@ -39,6 +41,9 @@ func guarded(f func() string) (out string) {
 			if pe, ok := r.(parseErr); ok {
 				out = "bad-op " + pe.msg
 				return
+			}
+			if os.Getenv("VERIF_PANIC_TRACE") != "" {
+				fmt.Fprintf(os.Stderr, "panic: %v\n%s\n", r, debug.Stack())
 			}
 			out = "panic"
 		}
@@ -318,6 +323,42 @@ func execOp(line string) string {
 				return "ok " + hexOrDash(b) + " ; " + t2 + " ; err"
 			}
 			return "ok " + hexOrDash(b) + " ; " + t2 + " ; " + hexOrDash(b2)
+		})
+	case "rto":
+		return guarded(func() string {
+			p := getBody(NewR(args), kind)
+			b, err := p.Marshal()
+			if err != nil {
+				return "err"
+			}
+			q := newPacket(kind)
+			if err := q.Unmarshal(exactCap(b)); err != nil {
+				return "deerr"
+			}
+			return "ok " + bodyTokens(q)
+		})
+	case "decv":
+		f := strings.Fields(args)
+		if len(f) == 0 {
+			return "bad-op decv"
+		}
+		b := exactCap(unhexOr(f[0]))
+		return measured(len(b), func() string { return execDec(kind, b) })
+	case "concat":
+		f := strings.Fields(args)
+		if len(f) != 2 {
+			return "bad-op concat"
+		}
+		return guarded(func() string {
+			a, b := unhexOr(f[0]), unhexOr(f[1])
+			one := func(x []byte) string {
+				ps, err := rtcp.Unmarshal(exactCap(x))
+				if err != nil {
+					return "err"
+				}
+				return packetsTokens(ps)
+			}
+			return "ok " + one(a) + " ; " + one(b) + " ; " + one(append(append([]byte{}, a...), b...))
 		})
 	case "reenc":
 		b := exactCap(NewR(args).H())
